@@ -687,6 +687,28 @@ def t1_property(pid, tier, seed, replay):
             elif len(direct) < 200:
                 direct.append(dict(case=c[idx], impl=a[idx], model=m[idx], message=msg, source=fam))
 
+    # C07: the zero-sized corner (recorded finding D9), reproduced against the real crate
+    if pid == "C07":
+        pz = subprocess.run([os.path.join(BUILD, "cargo", "release", "zst")], stdout=subprocess.PIPE, stderr=subprocess.STDOUT, text=True, env=ENV)
+        zl = dict(l.split(";") for l in pz.stdout.splitlines() if ";" in l)
+        evidence["zst"] = zl
+        total += len(zl)
+        if zl.get("control.ref.try_new") != "Some":
+            n_direct_seen += 1
+            direct.append(dict(case="zst: control", impl=pz.stdout[-500:], model=None, source="zst",
+                               message="try_new rejects two non-empty owned collections that share no lock"))
+        for ctor in ("ref.try_new", "retry.try_new", "boxed.try_new"):
+            if zl.get(ctor) == "None":
+                case = f"zst: {ctor}(&(OwnedLockCollection::new([]), OwnedLockCollection::new([])))"
+                msg = "None for a duplicate-free input (two empty owned collections alias by address)"
+                n_direct_seen += 1
+                hit = next((f for f in known.get("findings", []) if finding_matches(f, pid, case, msg)), None)
+                if hit:
+                    known_hits[hit["id"]] = known_hits.get(hit["id"], 0) + 1
+                    known_first.setdefault(hit["id"], dict(case=case, impl="None", message=msg))
+                else:
+                    direct.append(dict(case=case, impl="None", model="Some", message=msg, source="zst"))
+
     # static half (C04, C07, C13, C17): the rules over the fact table regenerated from the source
     static_rows = []
     if pid in STATIC_HALF:
@@ -803,6 +825,12 @@ def do_replay(pid, cfg, path):
     case = j.get("case") or (j.get("first_disagreement") or {}).get("case")
     if not case:
         print(json.dumps(j, indent=1)); return 0
+    if case.startswith("zst:"):
+        print(json.dumps(j, indent=1)[:2000])
+        ok, out, dt = build_harness()
+        pz = subprocess.run([os.path.join(BUILD, "cargo", "release", "zst")], stdout=subprocess.PIPE, stderr=subprocess.STDOUT, text=True, env=ENV)
+        print("now:"); print(pz.stdout)
+        return 0
     if case.startswith("(static)"):
         # a static-rule violation: regenerate the fact table from /repo and re-evaluate the rules
         print(json.dumps(j, indent=1)[:3000])
